@@ -240,7 +240,49 @@ int32_t carquet_schema_find_column(
     const char* name) {
 
     /* schema and name are nonnull per API contract */
-    /* Simple linear search */
+
+    /* Dot-separated path below the root ("address.city"): walk the
+     * depth-first element list, keeping the byte offset in `name` at which
+     * each open group's path ends. */
+    {
+        enum { FIND_MAX_DEPTH = 160 };
+        size_t matched[FIND_MAX_DEPTH];   /* chars of name matched by the path of the group at this depth; SIZE_MAX: no match */
+        int32_t remaining[FIND_MAX_DEPTH];
+        int32_t depth = 0;
+        int32_t leaf = 0;
+        size_t name_len = strlen(name);
+
+        for (int32_t i = 1; i < schema->num_elements && depth < FIND_MAX_DEPTH; i++) {
+            const parquet_schema_element_t* e = &schema->elements[i];
+            size_t prefix = depth > 0 ? matched[depth - 1] : 0;
+            size_t end = (size_t)-1;
+            if (depth > 0) remaining[depth - 1]--;
+            if (prefix != (size_t)-1 && e->name) {
+                size_t at = prefix;
+                if (depth > 0) {
+                    at = (at < name_len && name[at] == '.') ? at + 1 : (size_t)-1;
+                }
+                size_t len = strlen(e->name);
+                if (at != (size_t)-1 && at + len <= name_len &&
+                    strncmp(name + at, e->name, len) == 0) {
+                    end = at + len;
+                }
+            }
+            if (e->has_type || e->num_children <= 0) {
+                if (e->has_type) {
+                    if (end == name_len) return leaf;
+                    leaf++;
+                }
+            } else {
+                matched[depth] = end;
+                remaining[depth] = e->num_children;
+                depth++;
+            }
+            while (depth > 0 && remaining[depth - 1] == 0) depth--;
+        }
+    }
+
+    /* No path matched: a bare leaf name */
     for (int32_t i = 0; i < schema->num_leaves; i++) {
         int32_t elem_idx = schema->leaf_indices[i];
         if (schema->elements[elem_idx].name &&
